@@ -100,7 +100,11 @@ def gen_cfg(rng, real=False):
     cfg["io_seam"] = rng.random() < 0.7
     u = rng.random()
     if cfg.get("legacy_keys"):
-        pass
+        if rng.random() < 0.5:
+            # 'dump' next to explicit cadences for the two streams it feeds: the explicit value wins, a 0 included
+            cfg["legacy_explicit"] = {"xyz": rng.choice([0, 0, 1, 3]), "data": rng.choice([0, 0, 2, 5]), "dump": rng.choice([1, 2, 3])}
+            cfg["out"]["xyz"] = cfg["legacy_explicit"]["xyz"]
+            cfg["out"]["h5"]["data"] = cfg["legacy_explicit"]["data"]
     elif u < 0.05:
         # no HDF5 output at all, requested by leaving the 'h5' key out of the output dictionary (every cadence defaults to 0)
         cfg["out"]["h5"] = {k: 0 for k in cfg["out"]["h5"]}
@@ -108,6 +112,9 @@ def gen_cfg(rng, real=False):
     elif u < 0.15:
         # streams suppressed by leaving their key out instead of writing a 0
         cfg["sparse_h5_keys"] = True
+    elif u < 0.22:
+        # cadences computed by the caller with NumPy arrive as numpy integers
+        cfg["numpy_cadences"] = True
     return cfg, crashes
 
 
